@@ -246,12 +246,17 @@ def run(rep, tier, seed, replay=None):
     model = vlib.run_model([c for c in cases if c.split(" ")[1] not in ("realfam", "realseq")])
     # the long-timeout cases side by side (they sleep most of the time), the rest one after the other
     slow = [c for c in cases if c.split(" ")[1] in ("realfam", "realudp", "realgs2", "realjava") and c.split(" ")[3] in ("400", str(LONG))]
-    impl, panics = vlib.run_impl([c for c in cases if c not in slow], tag="c12")
+    # (a time budget for the batch: on the unchanged tree it takes under a minute in the quick tier; a change that lengthens every
+    # wait would otherwise make the check as slow as the queries it measures)
+    BUDGET = 360 if tier == "quick" else 3600
+    impl, panics = vlib.run_impl([c for c in cases if c not in slow], tag="c12", budget_s=BUDGET)
+    if "<budget>" in panics:
+        rep.oracle_failures.append(("timeout-not-bounding:batch", f"the real-socket cases did not end within {BUDGET} s (normally under a minute): waits have become longer than the timeouts allow; first case not reached: " + next((c.split(' ', 1)[0] for c in cases if impl.get(c.split(' ', 1)[0], '').startswith('NOT-RUN')), '?'), "batch", panics["<budget>"]))
     if slow:
         from concurrent.futures import ThreadPoolExecutor
         lanes = [slow[k::12] for k in range(12)]
         with ThreadPoolExecutor(12) as ex:
-            for io, pa in ex.map(lambda kl: vlib.run_impl(kl[1], tag=f"c12s{kl[0]}"), [(k, l) for k, l in enumerate(lanes) if l]):
+            for io, pa in ex.map(lambda kl: vlib.run_impl(kl[1], tag=f"c12s{kl[0]}", budget_s=BUDGET), [(k, l) for k, l in enumerate(lanes) if l]):
                 impl.update(io)
                 panics.update(pa)
     def judge(c, m, i, panic, counting):
